@@ -413,6 +413,8 @@ def run(repo, rep, tier):
     for _desc, _want in (('the conforming peer', True), ('Ciphers: last name removed', False)):
         _res = _P.run(repo, _consts, _pol, _peers[_desc], False, False)
         rep.evals()
+        if any(f for v, e, r, f in _res) and len({v for v, e, r, f in _res}) > 1:
+            raise AnalysisError('Policy.evaluate: the verdict for %s depends on a condition the analysis does not model: %s' % (_desc, [f for v, e, r, f in _res][:2]))
         rep.check('policy-map', 'Policy.evaluate returns its verdict first (%s -> %s)' % (_desc, _want), all(v is _want for v, e, r, f in _res), pe, 'Policy.evaluate returns %s for %s' % ([r for v, e, r, f in _res][:1], _desc), stmt='evaluate verdict: %s' % _desc)
 
     # ---- rule 6: wrappers ---------------------------------------------------------------------------
